@@ -36,7 +36,7 @@ func c13Statement(m *big.Int, sign int, factor uint, diff *big.Int, sp rangeproo
 func TestVerifC13(t *testing.T) {
 	r := vkit.Start(t, "C13", "completeness", 240*time.Second, 1500*time.Second)
 	defer r.Finish()
-	r.Rule = "attribute m (large, so that bounds stay non-negative); statement sign*(factor*m-bound)=diff for diff in [-3,W] and 2^k, 2^k-1 (k up to 255), sign in {+1,-1}, factor 1..8 with four squares; factor 1 with GenerateSquaresTable(limit) for limit in {16,64} and every diff in [-2, limit+1]; combinations of 2-3 statements on one and two attributes; honest proofs also with every range-proof random draw forced to min/max/short (<=1 deviation); non-trivial = distinct (splitter, sign, factor, diff); oracle: diff>=0 (and within the documented table limit) => proof created, verifies, Proves(statement); diff<0 => ErrFalseStatement"
+	r.Rule = "attribute m (large, so that bounds stay non-negative); statement sign*(factor*m-bound)=diff for diff in [-3,W] and 2^k, 2^k-1 (k up to 255), sign in {+1,-1}, factor 1..8 with four squares; factor 1 with GenerateSquaresTable(limit) for limit in {16,64} and every diff in [-2, limit+1]; combinations of 2-3 statements on one and two attributes; query sequences of 3 proofs from one reused Statement object whose bound the caller moves in place between queries (earlier proofs must keep verifying and reporting their bound); honest proofs also with every range-proof random draw forced to min/max/short (<=1 deviation); non-trivial = distinct (splitter, sign, factor, diff); oracle: diff>=0 (and within the documented table limit) => proof created, verifies, Proves(statement); diff<0 => ErrFalseStatement"
 	k := vfK("toyA")
 	pk := k.Pk
 	env := vfInstallEnv(t, "C13", r.Seed)
@@ -159,6 +159,58 @@ func TestVerifC13(t *testing.T) {
 		}
 		// one false member makes the whole proof fail
 		try("combination with one false member", map[int][]*rangeproof.Statement{1: {c13Statement(m, 1, 1, vfInt(3), nil), c13Statement(m, -1, 1, vfInt(-1), nil)}}, false, "combination-false-member")
+	}
+	// query sequences on one reused Statement object: the caller moves the bound in place between
+	// queries (as the repository's own tests do); every earlier proof must keep verifying and keep
+	// reporting the bound it was requested for, and the library must leave the caller's statement alone
+	for _, spn := range []string{"4sq", "3sq"} {
+		for _, sign := range []int{1, -1} {
+			for _, step := range []int64{1, 2, -1} {
+				if _, mine := r.Next(); !mine {
+					continue
+				}
+				var sp rangeproof.SquareSplitter
+				if spn == "3sq" {
+					sp = tables[64]
+				}
+				desc := fmt.Sprintf("query sequence %s sign=%d: 3 proofs from one Statement object, bound moved in place by %d between queries", spn, sign, step)
+				r.Nontrivial(desc)
+				cls := fmt.Sprintf("sequence|%s|sign=%d", spn, sign)
+				st := c13Statement(m, sign, 1, vfInt(9), sp)
+				var proofs []*ProofD
+				var requested []*big.Int
+				okSeq := true
+				for q := 0; q < 3 && okSeq; q++ {
+					want := vfCopy(st.Bound)
+					r.Eval()
+					p, err := cred.CreateDisclosureProof([]int{2}, map[int][]*rangeproof.Statement{1: {st}}, false, vfContext, vfNonce)
+					if err != nil {
+						r.Violate("C13|true-statement-not-provable|"+cls, fmt.Sprintf("%s: query %d: %v", desc, q, err), desc)
+						okSeq = false
+						break
+					}
+					if st.Bound.Cmp(want) != 0 || st.Sign != sign || st.Factor != 1 {
+						r.Violate("C13|library-changed-the-callers-statement|"+cls, fmt.Sprintf("%s: query %d", desc, q), desc)
+					}
+					proofs, requested = append(proofs, p), append(requested, want)
+					// next query: the statement stays true (difference 9 -> 9-2*step.. >= 3)
+					st.Bound.Add(st.Bound, vfInt(int64(sign)*step))
+				}
+				for q, p := range proofs {
+					r.Eval()
+					acc, _ := c12Verify(pk, p)
+					r.Outcome(fmt.Sprintf("sequence:earlier-proof-accepted=%v", acc))
+					if !acc {
+						r.Violate("C13|true-statement-proof-rejected|"+cls, fmt.Sprintf("%s: proof of query %d no longer verifies after the caller moved the statement's bound", desc, q), desc)
+						continue
+					}
+					fresh := &rangeproof.Statement{Sign: sign, Factor: 1, Bound: requested[q], Splitter: sp}
+					if !p.RangeProofs[1][0].Proves(fresh) {
+						r.Violate("C13|proof-does-not-report-requested-statement|"+cls, fmt.Sprintf("%s: proof of query %d does not report bound %v it was requested for", desc, q, requested[q]), desc)
+					}
+				}
+			}
+		}
 	}
 	// environment deviations on an honest range proof
 	if _, mine := r.Next(); mine {
